@@ -17,7 +17,7 @@ def scale_symmetric(A):
 
     a_rows = A.row
     a_cols = A.col
-    a_data = np.abs(A.data)
+    a_data = np.abs(A.data).astype(float)
 
     max_it = 100
 
@@ -202,8 +202,9 @@ class ScaledProblem(Problem):
 
         jac_orig = self.problem.cons_jac(x_orig)
 
-        # Copy required in order not to modify the original Jacobian
-        jac = jac_orig.tocoo(copy=True)
+        # Copy required in order not to modify the original Jacobian,
+        # conversion required in order not to truncate integer valued ones
+        jac = jac_orig.tocoo(copy=True).astype(float)
 
         jac_row = jac.row
         jac_col = jac.col
@@ -224,8 +225,9 @@ class ScaledProblem(Problem):
 
         hess_orig = self.problem.lag_hess(x_orig, y_orig)
 
-        # Copy required in order not to modify the original Hessian
-        hess = hess_orig.tocoo(copy=True)
+        # Copy required in order not to modify the original Hessian,
+        # conversion required in order not to truncate integer valued ones
+        hess = hess_orig.tocoo(copy=True).astype(float)
 
         hess_row = hess.row
         hess_col = hess.col
